@@ -88,6 +88,17 @@ Theorem C15_expect_sound : forall sro R0 tr j vs t,
 Proof. exact expect_sound. Qed.
 Print Assumptions C15_expect_sound.
 
+(* requests (_call_view): the candidate list is only read (regenerated fact), so a request whose lookup
+   the expectation constrains is answered by the first accepting candidate of lookup_all -- independent
+   of which requests were served before *)
+Theorem C15_request_answer_sound : forall sro R0 tr j vs t tbl,
+  expect sro lookup_prog register_prog (init R0) tr (fun _ => None) j = Some vs ->
+  threads (exec sro lookup_prog register_prog tr (init R0)) j = Some t -> cont t = [] ->
+  call_view_reads_only = true /\ request_answer tbl (tres t) = Some (first_answer tbl vs).
+Proof. exact (fun sro R0 tr j vs t tbl He Ht Hc =>
+               conj facts_call_view_reads_only (request_answer_sound sro R0 tr j vs t tbl He Ht Hc)). Qed.
+Print Assumptions C15_request_answer_sound.
+
 (* every other value of the program parameters is refuted by a concrete schedule (also replayed on
    the implementation by the violation search) *)
 Theorem C15_lookup_fresh_Reread_refuted : ~ fresh_claim (std_lookup Reread true) (std_register Swap).
